@@ -16,7 +16,9 @@ def items(ctx):
                 {"kind": "dict", "opt": "max", "gap": 1, "entries": [(0, 1, 1), (0, 0, 4)]},      # gap 0.5
                 {"kind": "dict", "opt": "max", "gap": 4, "entries": [(0, 1, -3), (1, 1, 3)]},     # gap 2
                 {"kind": "dict", "opt": "max", "gap": 3, "entries": []},                          # only the gap cost (1.5)
-                {"kind": "dict", "opt": "min", "gap": 1, "entries": [(0, 1, -1), (1, 1, -4), (0, 0, -2)]}]
+                {"kind": "dict", "opt": "min", "gap": 1, "entries": [(0, 1, -1), (1, 1, -4), (0, 0, -2)]},
+                # free gaps (gap cost exactly 0: the falsy value of the option)
+                {"kind": "dict", "opt": "max", "gap": 0, "entries": [(0, 1, -2), (0, 0, 2)]}]
     A = 2
     seqs = [list(t) for n in range(0, 4) for t in itertools.product(range(A), repeat=n)]
     for a in seqs:
@@ -35,7 +37,7 @@ def items(ctx):
             continue
         sc = rng.choice(scorings)
         if sc["kind"] == "dict" and rng.random() < 0.5:
-            sc = {"kind": "dict", "opt": rng.choice(["max", "min"]), "gap": rng.choice([1, 2, 3, 4, 5]),
+            sc = {"kind": "dict", "opt": rng.choice(["max", "min"]), "gap": rng.choice([0, 1, 2, 3, 4, 5]),
                   "entries": [(rng.randrange(A), rng.randrange(A), rng.randint(-4, 4)) for _ in range(rng.randint(0, 3))]}
             # keep one value per unordered pair
             seen = {}
@@ -51,7 +53,7 @@ def items(ctx):
 RULE = ("model: the recurrence with its border equals the maximum over ALL explicitly enumerated global alignments, for "
         "all sequence pairs up to length 3 (4) over a binary alphabet x substitution tables x gap scores. implementation: "
         "all pairs of sequences of length 0..3 over 2 symbols (quick: thinned) and seeded pairs up to length 6 over 3 "
-        "symbols x {default scoring, dictionary scoring with gap costs 0.5 / 1 / 1.5 / 2 / 2.5, max and min "
+        "symbols x {default scoring, dictionary scoring with gap costs 0 / 0.5 / 1 / 1.5 / 2 / 2.5, max and min "
         "orientation}; recorded: value, score matrix, and the alignment for all six traceback orders and the default; "
         "TLC judges value = optimum, the score matrix cell by cell, and each alignment (equal lengths, reduces to the "
         "inputs, no gap/gap column, scores the value); non-trivial = unequal lengths or custom scoring")
